@@ -18,7 +18,7 @@ RULE = ("every evaluate(return_grad=True) call of the direct workload (all class
 ASSUMPTIONS = ["finite-difference derivative with Richardson extrapolation is accurate to ~1e-6 relative on smooth "
                "coordinates; coordinates failing the smoothness test at h=1e-4 and 1e-6 are treated as kinks and skipped"]
 EVAL_COUNTER = "grad_calls"
-REQUIRED = {"quick": {"grad_calls": 1500, "coords_compared": 4000, "dirs_compared": 1500, "clipped_entries_checked": 200,
+REQUIRED = {"quick": {"grad_calls_beyond_2^20_elements": 10, "grad_calls": 1500, "coords_compared": 4000, "dirs_compared": 1500, "clipped_entries_checked": 200,
                       "same_score_checked": 1500, "insitu_calls_checked": 50, "inplace_refreshed_grad_calls": 120,
                       "cmp:KLGEMINI": 100, "cmp:TVGEMINI": 100, "cmp:HellingerGEMINI": 100, "cmp:ChiSquareGEMINI": 100,
                       "cmp:MMDGEMINI": 200, "cmp:WassersteinGEMINI": 200},
@@ -52,6 +52,8 @@ class State:
             return
         ctx = self.ctx
         ctx.count("grad_calls")
+        if P.ndim == 2 and P.shape[0] * P.shape[1] ** 2 > 2 ** 20:
+            ctx.count("grad_calls_beyond_2^20_elements")
         cname = [c.__name__ for c in type(gem).__mro__ if c.__name__ in _gem.CONCRETE][0]
         mech = f"{cname}-{'ovo' if gem.ovo else 'ova'}"
         if not (isinstance(res, tuple) and len(res) == 2):
